@@ -128,6 +128,7 @@ class Env:
         self.devs = {}           # kind -> [names]
         self.dev_opts = {}       # name -> dict (e.g. lcd interface/backlight, rows/cols)
         self.funcs = {}          # name -> (param types, ret type or None)
+        self.poly = {}           # name -> info of a polymorphic helper (gen_poly_function)
         self.used = set()
         self.in_fn = None        # name of the function being generated
         self.loop_depth = 0
@@ -162,6 +163,8 @@ class Env:
         e.devs = {k: list(v) for k, v in self.devs.items()}
         e.dev_opts = self.dev_opts
         e.funcs = self.funcs
+        e.poly = self.poly
+        e.pin_vars = getattr(self, "pin_vars", [])
         e.used = self.used
         e.in_fn, e.loop_depth, e.in_main = self.in_fn, self.loop_depth, self.in_main
         e.features = self.features
@@ -740,6 +743,8 @@ def stmt(env, depth):
     kinds += ["listnew"]
     if env.funcs:
         kinds += ["callstmt"] * 2
+    if poly_callable(env):
+        kinds += ["polycall"] * (6 if env.o.get("poly") else 3)
     if env.loop_depth > 0:
         kinds += ["break_or_continue"]
     k = rng.choice(kinds)
@@ -838,6 +843,8 @@ def stmt(env, depth):
             env.vars[name] = ret
             return [f"{name} = {src}"]
         return [src]
+    if k == "polycall":
+        return poly_call_stmt(env)
     if k == "break_or_continue":
         c, _ = gen_bool(env, 1)
         # never at depth 1 of the main loop (the parser rejects break there); continue is fine anywhere in a loop
@@ -1047,7 +1054,8 @@ DEV_NAMES = {"Led": ["led", "led2", "status_led", "lamp"], "RGBLed": ["rgb", "rg
              "SerialMonitor": ["mon", "ser", "monitor"]}
 
 
-def declare_device(env, kind, pins):
+def declare_device(env, kind, pins, iface=None):
+    """iface: None | 'i2c' | 'parallel' (LCD only: force the interface)"""
     rng = env.rng
     name = None
     for cand in rng.sample(DEV_NAMES[kind], len(DEV_NAMES[kind])):
@@ -1057,7 +1065,14 @@ def declare_device(env, kind, pins):
     if name is None:
         return None
     env.used.add(name)
-    P = lambda: pins.pop() if pins else rng.randint(2, 13)
+    def P():
+        # a pin is a literal, or (when the script has pin variables) a global int variable / a sum of one and a literal
+        pv = getattr(env, "pin_vars", [])
+        if pv and rng.random() < 0.4:
+            env.feat("device pin from a variable")
+            v = rng.choice(pv)
+            return v if rng.random() < 0.6 else f"{v} + {rng.randint(1, 4)}"
+        return pins.pop() if pins else rng.randint(2, 13)
     env.feat("declare " + kind)
     if kind == "Led":
         src = rng.choice([f"Led({P()})", f"Led(pin={P()})", "Led()"])
@@ -1080,9 +1095,12 @@ def declare_device(env, kind, pins):
         src = rng.choice(["SerialMonitor(9600)", 'SerialMonitor(baud_rate=115200, port="COM4")', "SerialMonitor()", 'SerialMonitor(9600, "COM3")'])
     elif kind == "LCD":
         k = rng.random()
+        if iface is not None:
+            k = 0.0 if iface == "i2c" else 1.0
         if k < 0.4:
             cols, rows = rng.choice([(16, 2), (20, 4)])
-            src = rng.choice([f"LCD(i2c_addr=0x27, cols={cols}, rows={rows})", f"LCD(i2c_addr=39, cols={cols}, rows={rows})"])
+            addr = rng.choice(["0x27", "39", "0x3F", "0x26"])
+            src = rng.choice([f"LCD(i2c_addr={addr}, cols={cols}, rows={rows})", f"LCD(cols={cols}, rows={rows}, i2c_addr={addr})"])
             if (cols, rows) == (16, 2) and rng.random() < 0.4:
                 src = "LCD(i2c_addr=0x3F)"
             env.dev_opts[name] = {"interface": "i2c", "cols": cols, "rows": rows}
@@ -1145,6 +1163,182 @@ def gen_function(env):
     return [f"def {name}({', '.join(sig)}):"] + indent(body)
 
 
+# ----------------------------------------------------------------------------- polymorphic helpers
+# User functions with UN-ANNOTATED parameters, which the transpiler specialises per call signature, called with several
+# argument types - inside the guard of F-C06-overload-ambiguous (never two numeric overloads of one function), of
+# F-C06-param-rebound-string (a parameter is only ever re-bound within the numeric types) and of
+# F-C06-call-site-unspecialised (a helper that really has two overloads is only called as the right-hand side of an assignment,
+# the only place where the transpiler records a call signature):
+#   rebind     def f(x): x = x / 2.0 ; return x            int and float arguments -> ONE float variant (alias int -> float)
+#   rebind2    def f(a, b): a = a / 4.0 ; return a + b      (int,int) and (float,int) -> one variant (float,int)
+#   overload   def f(x): return x + x                       T and String arguments -> two real overloads (T one numeric type)
+#   show       def f(v): <serial>.write(v)                  int arguments only, called as a bare statement (a void helper is never
+#                                                           specialised: listed finding F-C06-call-site-unspecialised)
+#   mono       def f(a, b): return a * b + 1                always (int, int): one variant, many call sites
+#   same       def f(n): n = n + 1 ; return n * 2           re-bound to its own type, one argument type
+#   strsame    def f(s): s = s + "!" ; return s             String only
+#   via        def g(y: int): return f(y)  /  def g(z: float): return f(z)     calls of a rebind helper from inside functions
+#   recursive  def f(n): if n <= 1: return 1 ; return n * f(n - 1)                  a function that mentions itself
+#   listparam  def f(xs): t = 0 ; for i in range(len(xs)): t = t + xs[i] ; return t   called with a list variable
+#   listret    def f(n: int): out = [n, n + 1] ; return out                          returns a list
+#   globalmut  def f(): global g ; g = g + 1                                          assigns a global
+#   nothing    def f(): pass     /    def f(): return                                 empty bodies
+POLY_KINDS = ["rebind", "rebind", "rebind2", "overload", "overload", "show", "mono", "same", "strsame",
+              "recursive", "listparam", "listret", "globalmut", "nothing"]
+POLY_FN_POOL = ["half", "halve", "scale2", "twice", "dup", "emit_v", "show_v", "mul1", "bump", "exclaim", "quarter", "norm", "mixin", "echo_v", "tag"]
+
+
+def _num_exact(env, ty):
+    """an argument whose inferred label AND C++ type are exactly ty (int/float): a literal or a variable of that type"""
+    rng = env.rng
+    vs = env.vars_of(ty)
+    if vs and rng.random() < 0.5:
+        return rng.choice(vs)
+    return lit_int(rng) if ty == "int" else lit_float(rng)
+
+
+def _str_exact(env):
+    rng = env.rng
+    vs = env.vars_of("String")
+    if vs and rng.random() < 0.5:
+        return rng.choice(vs)
+    return py_literal(rng, gen_printable(rng, 6))
+
+
+def gen_poly_function(env, kind=None):
+    rng = env.rng
+    kind = kind or rng.choice(POLY_KINDS)
+    if kind == "show" and not env.devs.get("SerialMonitor"):
+        kind = "overload"
+    name = env.fresh(POLY_FN_POOL)
+    p = env.fresh(["x", "v", "n", "w", "u", "arg", "val"])
+    q = env.fresh(["b", "m", "k", "other"])
+    num = rng.choice(["int", "float"])
+    info = {"kind": kind, "num": num, "sites": 0}
+    if kind == "rebind":
+        op = rng.choice([f"{p} / 2.0", f"{p} * 0.5", f"{p} + 0.25", f"{p} / 4.0 + 1.0", f"({p} + {p}) / 3.0"])
+        body = [f"{p} = {op}", f"return {p}"]
+        if rng.random() < 0.3:
+            body = [f"{p} = {op}", f"if {p} > 10.0:", f"    {p} = 10.0", f"return {p}"]
+        lines = [f"def {name}({p}):"] + indent(body)
+    elif kind == "rebind2":
+        lines = [f"def {name}({p}, {q}):"] + indent([f"{p} = {p} / 4.0", f"return {p} + {q}"])
+    elif kind == "overload":
+        lines = [f"def {name}({p}):"] + indent([f"return {p} + {p}"])
+    elif kind == "show":
+        lines = [f"def {name}({p}):"] + indent([f"{env.dev('SerialMonitor')}.write({p})"])
+    elif kind == "mono":
+        lines = [f"def {name}({p}, {q}):"] + indent([f"return {p} * {q} + 1"])
+    elif kind == "same":
+        lines = [f"def {name}({p}):"] + indent([f"{p} = {p} + 1", f"return {p} * 2"])
+        info["num"] = "int"
+    elif kind == "strsame":
+        lines = [f"def {name}({p}: str):"] + indent([f"{p} = {p} + {py_literal(rng, gen_printable(rng, 3) or '!')}", f"return {p}"])
+    elif kind == "recursive":
+        ann = rng.choice(["", ": int"])
+        lines = [f"def {name}({p}{ann}):"] + indent([f"if {p} <= 1:", "    return 1", f"return {p} * {name}({p} - 1)"])
+    elif kind == "listparam":
+        et = rng.choice(["int", "float"])
+        info["num"] = et
+        zero = "0" if et == "int" else "0.0"
+        ann = rng.choice(["", "", f": list[{et}]"])
+        lines = [f"def {name}({p}{ann}):"] + indent([f"{q} = {zero}", f"for i in range(len({p})):", f"    {q} = {q} + {p}[i]", f"return {q}"])
+    elif kind == "listret":
+        lines = [f"def {name}({p}: int):"] + indent([f"{q} = [{p}, {p} + 1]", f"return {q}"])
+    elif kind == "globalmut":
+        gs = [n for n, t in env.vars.items() if t == "int"]
+        if not gs:
+            return gen_poly_function(env, "nothing")
+        info["global"] = rng.choice(gs)
+        lines = [f"def {name}():"] + indent([f"global {info['global']}", f"{info['global']} = {info['global']} + 1"])
+    elif kind == "nothing":
+        lines = [f"def {name}():"] + indent([rng.choice(["pass", "return"])])
+    elif kind == "via":
+        targets = [f for f, i in env.poly.items() if i["kind"] == "rebind"]
+        if not targets:
+            return gen_poly_function(env, "rebind")
+        t = rng.choice(targets)
+        ann = rng.choice(["int", "float"])
+        info["num"] = ann
+        info["target"] = t
+        lines = [f"def {name}({p}: {ann}):"] + indent([f"return {t}({p})"])
+    else:
+        raise AssertionError(kind)
+    env.poly[name] = info
+    env.feat("poly def " + kind)
+    return lines
+
+
+def poly_callable(env):
+    return [f for f in getattr(env, "poly", {}) if f != env.in_fn]
+
+
+def poly_call(env, f=None, alt=None):
+    """-> (call source, result type or None); alt in (0, 1) forces the first / second argument class of the helper"""
+    rng = env.rng
+    f = f or rng.choice(poly_callable(env))
+    i = env.poly[f]
+    kind = i["kind"]
+    i["sites"] += 1
+    a = rng.randint(0, 1) if alt is None else alt
+    env.feat(f"poly call {kind} arg class {a}")
+    if kind == "rebind":
+        return f"{f}({_num_exact(env, ['int', 'float'][a])})", "float"
+    if kind == "rebind2":
+        return f"{f}({_num_exact(env, ['int', 'float'][a])}, {_num_exact(env, 'int')})", "float"
+    if kind == "overload":
+        if a == 0:
+            return f"{f}({_num_exact(env, i['num'])})", i["num"]
+        return f"{f}({_str_exact(env)})", "String"
+    if kind == "show":
+        return f"{f}({_num_exact(env, 'int')})", None
+    if kind == "mono":
+        return f"{f}({_num_exact(env, 'int')}, {_num_exact(env, 'int')})", "int"
+    if kind == "same":
+        return f"{f}({_num_exact(env, 'int')})", "int"
+    if kind == "strsame":
+        return f"{f}({_str_exact(env)})", "String"
+    if kind == "via":
+        return f"{f}({_num_exact(env, i['num'])})", "float"
+    if kind == "recursive":
+        return f"{f}({rng.choice(['1', '3', '5'] + env.vars_of('int'))})", "int"
+    if kind == "listparam":
+        ls = env.vars_of(f"list[{i['num']}]")
+        if not ls:
+            return f"{f}([{', '.join((lit_int if i['num'] == 'int' else lit_float)(rng) for _ in range(rng.randint(1, 3)))}])", i["num"]
+        return f"{f}({rng.choice(ls)})", i["num"]
+    if kind == "listret":
+        return f"{f}({_num_exact(env, 'int')})", "list[int]"
+    if kind in ("globalmut", "nothing"):
+        return f"{f}()", None
+    raise AssertionError(kind)
+
+
+def poly_call_stmt(env, f=None, alt=None):
+    rng = env.rng
+    src, ty = poly_call(env, f, alt)
+    if ty is None:
+        return [src]
+    r = rng.random()
+    if env.poly[src.split("(")[0]]["kind"] in ("overload", "listret", "listparam"):
+        r *= 0.75                                # assignment contexts only
+    if r < 0.55:
+        name = env.fresh(VAR_POOL)
+        env.vars[name] = ty
+        return [f"{name} = {src}"]
+    old = env.vars_of(ty)
+    if r < 0.75:
+        if old:
+            return [f"{rng.choice(old)} = {src}"]
+        name = env.fresh(VAR_POOL)
+        env.vars[name] = ty
+        return [f"{name} = {src}"]
+    mon = env.dev("SerialMonitor")
+    if mon:
+        return [f"{mon}.write({src})"]
+    return [src]
+
+
 # ----------------------------------------------------------------------------- whole script
 def gen_script(rng, opts=None):
     opts = dict(opts or {})
@@ -1154,10 +1348,15 @@ def gen_script(rng, opts=None):
         kinds_pre = list(dict.fromkeys(list(opts["force_kinds"]) + kinds_pre))
     if "SerialMonitor" not in kinds_pre and rng.random() < 0.8:
         kinds_pre.append("SerialMonitor")
-    kinds_loop = [k for k in HOISTABLE if k not in kinds_pre and rng.random() < opts.get("p_hoist", 0.3)]
+    # a hoistable kind may ALSO be declared before the loop (two instances, one of them hoisted) when opts["multi"]
+    multi = opts.get("multi", False)
+    kinds_loop = [k for k in HOISTABLE if (multi and rng.random() < 0.5 or k not in kinds_pre) and rng.random() < opts.get("p_hoist", 0.3)]
     if opts.get("force_hoist"):
         kinds_loop = [k for k in dict.fromkeys(list(opts["force_hoist"]) + kinds_loop) if k in HOISTABLE]
-        kinds_pre = [k for k in kinds_pre if k not in kinds_loop]
+        if not multi:
+            kinds_pre = [k for k in kinds_pre if k not in kinds_loop]
+    if opts.get("lcd_both") and "LCD" not in kinds_pre:
+        kinds_pre.append("LCD")
     pins = list(range(2, 14)) + list(range(22, 54))
     rng.shuffle(pins)
     lines = ["from Reduino import target", 'target("COM3")' if rng.random() < 0.8 else 'target("/dev/ttyACM0", upload=False)']
@@ -1170,18 +1369,105 @@ def gen_script(rng, opts=None):
     if rng.random() < 0.3:
         early_fns = gen_function(env)          # zero-device function usable as Button callback
     lines += early_fns
+    # pin numbers kept in global variables (declared above the devices that use them)
+    env.pin_vars = []
+    if rng.random() < opts.get("p_pinvars", 0.25):
+        for _ in range(rng.randint(1, 3)):
+            v = env.fresh(["pin_a", "led_pin", "base_pin", "first_pin", "out_pin"])
+            env.vars[v] = "int"
+            env.pin_vars.append(v)
+            lines.append(f"{v} = {pins.pop()}")
+    # how many instances of each kind: one, or (multi) up to three - the emitter keeps per-NAME state and per-KIND flags
+    plan = []
     for k in kinds_pre:
-        d = declare_device(env, k, pins)
+        n = 1
+        if multi and k != "SerialMonitor":
+            n = rng.choice([1, 2, 2, 3])
+        ifaces = [None] * n
+        if k == "LCD":
+            if opts.get("lcd_both"):
+                n = max(n, 2)
+                ifaces = rng.choice([["parallel", "i2c"], ["i2c", "parallel"]]) + [None] * (n - 2)
+            elif opts.get("lcd_only"):
+                ifaces = [opts["lcd_only"]] * n
+        plan += [(k, i) for i in ifaces]
+    if multi:
+        rng.shuffle(plan)                      # kinds interleaved: led, lcd(i2c), servo, led2, lcd(parallel), ...
+    # layout of the part before the main loop ("devices declared before the main loop" - anywhere before it):
+    #   default             devices, globals, functions, statements
+    #   interleave          devices and globals alternate (a global may read a device declared above it)
+    #   fns_before_devices  globals, functions, devices, statements: a function is DEFINED above the device it drives
+    layout = opts.get("layout", "default")
+    sec_devs, sec_globals, sec_fns = [], [], []
+
+    def declare_next():
+        k, iface = plan.pop(0)
+        d = declare_device(env, k, pins, iface=iface)
         if d:
-            lines.append(d)
-    # globals
-    for _ in range(rng.randint(1, 5)):
-        lines += assign_new(env)
-    for _ in range(rng.randint(0, 2)):
-        lines += list_new(env)
+            (sec_globals if layout == "interleave" else sec_devs).append(d)
+            if len(env.devs.get(k, [])) > 1:
+                env.feat("second instance of " + k)
+
+    def globals_(n_vars, n_lists):
+        for _ in range(n_vars):
+            sec_globals.extend(assign_new(env))
+        for _ in range(n_lists):
+            sec_globals.extend(list_new(env))
+
+    n_vars, n_lists = rng.randint(1, 5), rng.randint(0, 2)
+    if layout == "fns_before_devices":
+        globals_(n_vars, n_lists)              # generated before any device exists: they cannot read one
+        while plan:
+            declare_next()
+    elif layout == "interleave":
+        todo = ["d"] * len(plan) + ["v"] * n_vars + ["l"] * n_lists
+        rng.shuffle(todo)
+        for t in todo:
+            if t == "d":
+                declare_next()
+            else:
+                globals_(1 if t == "v" else 0, 1 if t == "l" else 0)
+        env.feat("layout interleave")
+    else:
+        while plan:
+            declare_next()
+        globals_(n_vars, n_lists)
+    ifs = {env.dev_opts[n]["interface"] for n in env.devs.get("LCD", [])}
+    if len(ifs) == 2:
+        env.feat("both LCD interfaces")
+    # polymorphic helpers first (the ordinary functions below may call them; nothing calls forward)
+    npoly = opts.get("poly", 0) if opts.get("poly") is not None else 0
+    if not npoly and rng.random() < 0.25:
+        npoly = 1
+    for j in range(npoly):
+        sec_fns += gen_poly_function(env, (opts.get("poly_kinds") or [None] * npoly)[j % max(1, len(opts.get("poly_kinds") or [None]))])
+    if npoly and any(i["kind"] == "rebind" for i in env.poly.values()) and rng.random() < 0.5:
+        sec_fns += gen_poly_function(env, "via")
     # functions
     for _ in range(rng.choice([0, 1, 1, 2, 3])):
-        lines += gen_function(env)
+        sec_fns += gen_function(env)
+    if layout == "fns_before_devices":
+        lines += sec_globals + sec_fns + sec_devs
+        if sec_fns and sec_devs:
+            env.feat("layout functions before devices")
+    else:
+        lines += sec_devs + sec_globals + sec_fns
+    # boundary call sites: each polymorphic helper is called with BOTH argument classes - in either order, at top level
+    # (setup) or later from the main loop / a nested block (then only the generic polycall statements reach it)
+    late = []
+    for f, i in list(env.poly.items()):
+        if i["kind"] == "listparam":
+            # an un-annotated parameter that is used as a list must see a list argument in an assignment, or the helper keeps
+            # its int default (listed finding F-C06-call-site-unspecialised)
+            lines += poly_call_stmt(env, f, 0)
+        if i["kind"] in ("rebind", "rebind2", "overload", "via"):
+            order = rng.choice([[0, 1], [1, 0], [0, 1, 0], [1, 1, 0]])
+            where = rng.random()
+            for a in order:
+                if where < 0.6 or (where < 0.8 and a == order[0]):
+                    lines += poly_call_stmt(env, f, a)
+                else:
+                    late.append((f, a))          # generated when the loop body is (names declared there are not visible before)
     # pre-loop statements (setup)
     lines += block(env, 2, rng.randint(0, 5)) if rng.random() < 0.9 else []
     lines = [l for l in lines if l != "pass"]
@@ -1194,6 +1480,8 @@ def gen_script(rng, opts=None):
         if d:
             body.append(d)
             env.feat("hoisted " + k)
+    for f, a in late:
+        body += poly_call_stmt(env, f, a)
     body += block(env, 3, rng.randint(2, 7))
     lines.append("while True:")
     lines += indent(body)
@@ -1226,6 +1514,49 @@ def shapes_of(src: str):
                 out.add("fn-lcd-animate")
             if isinstance(n, ast.Call) and isinstance(n.func, ast.Name) and n.func.id in order and order[n.func.id] > order[f.name]:
                 out.add("fn-forward-call")
+    # a function defined ABOVE the RGBLed it drives: .on() / .off() / .blink() / .toggle() are then translated as Led methods
+    rgb_line = {}
+    for st in tree.body:
+        if isinstance(st, ast.Assign) and isinstance(st.value, ast.Call) and isinstance(st.value.func, ast.Name) and st.value.func.id == "RGBLed":
+            for t in st.targets:
+                if isinstance(t, ast.Name):
+                    rgb_line.setdefault(t.id, st.lineno)
+    for f in fdefs:
+        for n in ast.walk(f):
+            if isinstance(n, ast.Call) and isinstance(n.func, ast.Attribute) and isinstance(n.func.value, ast.Name) \
+                    and n.func.attr in ("on", "off", "blink", "toggle") and rgb_line.get(n.func.value.id, 0) > f.lineno:
+                out.add("fn-above-rgbled")
+    # un-annotated parameters: (1) re-bound in the body to a string-valued expression (the C++ parameter becomes String, int call
+    # sites no longer convert); (2) given a string / float literal at a call site outside an assignment or return value (no call
+    # signature is recorded there, so no variant for that argument type is emitted)
+    unann = {f.name: [i for i, a in enumerate(f.args.args) if a.annotation is None] for f in fdefs}
+    for f in fdefs:
+        pn = {a.arg for a in f.args.args if a.annotation is None}
+        for n in ast.walk(f):
+            if isinstance(n, (ast.Assign, ast.AugAssign)):
+                tg = n.targets if isinstance(n, ast.Assign) else [n.target]
+                if any(isinstance(t, ast.Name) and t.id in pn for t in tg):
+                    for m in ast.walk(n.value):
+                        if (isinstance(m, ast.Constant) and isinstance(m.value, str)) or isinstance(m, ast.JoinedStr) or \
+                                (isinstance(m, ast.Call) and isinstance(m.func, ast.Name) and m.func.id in ("str", "len")):
+                            out.add("param-rebound-string")
+    recorded = set()
+    for n in ast.walk(tree):
+        val = None
+        if isinstance(n, (ast.Assign, ast.AugAssign, ast.AnnAssign)):
+            val = n.value
+        elif isinstance(n, ast.Return):
+            val = n.value
+        if val is not None:
+            for m in ast.walk(val):
+                recorded.add(id(m))
+    for n in ast.walk(tree):
+        if isinstance(n, ast.Call) and isinstance(n.func, ast.Name) and n.func.id in unann and id(n) not in recorded:
+            for i in unann[n.func.id]:
+                if i < len(n.args):
+                    a = n.args[i]
+                    if isinstance(a, ast.JoinedStr) or (isinstance(a, ast.Constant) and isinstance(a.value, (str, float)) and not isinstance(a.value, bool)):
+                        out.add("call-site-unspecialised")
     # a tuple assignment at top level that introduces SOME new names (not all): the new ones become locals of setup()
     assigned = set()
     for st in tree.body:
@@ -1258,6 +1589,8 @@ def shapes_of(src: str):
             if isinstance(n, ast.Name) and n.id == v and n.lineno > f.end_lineno and not any(a <= n.lineno <= b for a, b in spans):
                 out.add("for-var-after-loop")
     for n in ast.walk(tree):
+        if isinstance(n, (ast.For, ast.comprehension)) and not (isinstance(n.iter, ast.Call) and isinstance(n.iter.func, ast.Name) and n.iter.func.id == "range"):
+            out.add("for-not-range")
         if isinstance(n, ast.Constant) and isinstance(n.value, str) and not n.value.isprintable():
             out.add("non-printable-literal")
         if isinstance(n, ast.BinOp) and isinstance(n.op, ast.Pow):
